@@ -201,6 +201,10 @@ def rand_string(r, expression_capable=False, minlen=None, maxlen=None, multiline
         elif k < 0.08:
             s = r.choice(enum_words())
             s = r.choice([s, s.upper(), s.lower()])
+        elif k < 0.15:
+            # a word that merely starts with, ends with or contains a word the grammar knows as a literal (selected_parcels, hilites)
+            lit = r.choice(sorted(vocab.grammar_literals())).lower()
+            s = r.choice([lit + "_parcels", lit + "s", lit.title() + "-2024", "un" + lit, lit + "2", lit.upper() + "_X"])
         elif k < 0.55:
             s = r.choice(WORDS)
         elif k < 0.7:
@@ -362,6 +366,11 @@ def make_item(p, a, r, gen_children=None):
     if k == "attribute":
         b = rand_bind(r)
         return Item("attr", key, shape="attribute", toks=[Tok("raw", b)], value=b)
+    if k == "expression" and key == "expression" and r.random() < 0.12:
+        # a list expression: the elements are kept as written (numbers are not re-spelled, words keep their case)
+        els = [r.choice(["a", "road", "Main_St", "01", "007", "2.50", "+3", "1e3", "5.", ".5", "TRUE", "false", "x1", "-0", "10"]) for _ in range(r.randint(1, 5))]
+        s = "{" + ",".join(els) + "}"
+        return Item("attr", key, shape="list", toks=[Tok("raw", s)], value=s)
     if k == "expression":
         src, tree = rand_expr(r)
         return Item("attr", key, shape="expression", toks=[Tok("raw", src)], value=None, expr=tree)
@@ -706,6 +715,7 @@ def place_comments(nodes, r, p_trailing=0.7, p_above=0.7):
     CONNECTIONOPTIONS openers.  Returns the list of placements [(text, kind, keyword-or-type, owner id)]."""
     n = [0]
     placed = []
+    used_plain = set()
 
     def uid():
         n[0] += 1
@@ -726,7 +736,14 @@ def place_comments(nodes, r, p_trailing=0.7, p_above=0.7):
                 if r.random() < 0.2:
                     # banner style: the same separator line above and below a title (identical comment texts)
                     sep = r.choice(["# ------", "# ======", "/* ---- */", "# TODO"])
-                    cs = [sep, text("#"), sep] if r.random() < 0.7 else [sep, sep]
+                    # (titles that read exactly like the comments dumps puts behind END: "# LAYER", "# MAP")
+                    title = ("# " + nd.type.upper()) if r.random() < 0.4 else r.choice(["# LAYER", "# END", "# METADATA"]) if r.random() < 0.3 else text("#")
+                    if not title.startswith("# c"):
+                        if title in used_plain:
+                            title = text("#")
+                        else:
+                            used_plain.add(title)
+                    cs = [sep, title, sep] if r.random() < 0.7 else [sep, sep]
                 else:
                     for _ in range(r.choice([1, 1, 2])):
                         k = r.choice(["#", "#", "/*"])
@@ -740,6 +757,11 @@ def place_comments(nodes, r, p_trailing=0.7, p_above=0.7):
                     multi = any("\n" in t.text for t in it.toks)  # (a string value or an expression literal running over several lines)
                     if not multi and it.key not in seen and r.random() < p_trailing:
                         it.comment = text(r.choice(["#", "#", "/*"]))
+                        if r.random() < 0.08:
+                            plain = r.choice(["# " + nd.type.upper(), "# LAYER", "# CLASS", "# STYLE", "# END", "# " + it.key.upper()])
+                            if plain not in used_plain:  # (each such text once per document: trailing comments are looked up by their text)
+                                used_plain.add(plain)
+                                it.comment = plain
                         placed.append((it.comment, "trailing", it.key, id(it)))
                         if it.comment.startswith("#") and r.random() < 0.2:
                             # a /* */ comment in front of the # comment on the same line: only the # comment's place is claimed
